@@ -5,17 +5,24 @@ import random
 
 from .common import C, Nat, Opt, Raw, Rec, coq
 
-MAX_EVENTS = 6000
+MAX_EVENTS = 30000
+GEN_EVENTS = 9000          # generated cases are kept below this many expected events
 
 COQ_FILES = ["C04/Model.v", "C04/Spec.v", "C04/Check.v", "C04/Lists.v", "C04/Arith.v", "C04/Sides.v", "C04/Proofs.v",
-             "C04/Corollaries.v", "C04/Batches.v", "C04/Example.v"]
+             "C04/Corollaries.v", "C04/Batches.v", "C04/Bounds.v", "C04/Loader.v", "C04/Passes.v", "C04/Example.v"]
 
 TRUSTED = [
-    "hand-written model coq/C04/Model.v of InterleavedSampler (ctor checkpoint derivation, __iter__, _eval_loop, "
-    "_training_loop, batch sampler, concat lookup); tied to /repo by this run's correspondence evaluation",
+    "hand-written model coq/C04/Model.v of InterleavedSampler (__init__ with all assertions, checkpoint derivation, "
+    "index_offsets, __iter__, _eval_loop, _training_loop incl. its batch-size adjustment branches, batch sampler, "
+    "concat-dataset lookup, collator dispatch); tied to /repo by this run's correspondence evaluation",
     "harness/interleaved.py: recording samplers, event log, case rendering",
-    "side samplers yield the same list on every pass and len(sampler) indices; main sampler yields len(sampler) "
-    "indices per epoch (the property's domain)",
+    "side samplers may yield another order on every iteration (modelled: the k-th iteration of a sampler object is an "
+    "arbitrary list of len(sampler) indices); main and side samplers yield exactly len(sampler) valid indices per "
+    "iteration (the property's domain)",
+    "torch DataLoader / ConcatDataset.cumulative_sizes / default_collate are not modelled: the model's loader_batches "
+    "(lookup + collator dispatch per batch of the batch sampler) is compared with what get_data_loader delivers",
+    "isinstance(int) assertions of the constructor, _get_data_source's attribute probing, __str__ of the config, "
+    "get_data_loader's kwargs plumbing and worker_init_fn forwarding are not modelled",
 ]
 
 
@@ -30,6 +37,16 @@ def main_iter(case, e):
     return r.sample(range(ds), n)
 
 
+def side_iter(sc, p):
+    """what the p-th iteration (counted from 0) of this config's sampler object yields"""
+    if sc.get("shuffle") is None:
+        return list(sc["idx"])
+    r = random.Random(sc["shuffle"] * 104729 + p)
+    l = list(sc["idx"])
+    r.shuffle(l)
+    return l
+
+
 def geometry(case):
     n, b = case["N"], case["B"]
     if case["drop_last"]:
@@ -42,9 +59,26 @@ def geometry(case):
     return spe, upe
 
 
-def gen_case(rng, big=False):
-    n = rng.choice([1, 2, 3, 4, 5, 6, 7, 8, 9, 10, 12, 13, 16, 17, 20, 24, 31, 40] if not big else list(range(1, 80)))
+def budgets(case):
+    """the three budget attributes the loops see (after an optional post-construction assignment)"""
+    if case.get("post_budget") is not None:
+        return dict(case["post_budget"])
+    out = {"epochs": None, "updates": None, "samples": None}
+    out[case["budget"][0]] = case["budget"][1]
+    return out
+
+
+def gen_case(rng, big=False, size=None):
+    size = size or ("mid" if big else "small")
+    if size == "small":
+        n = rng.choice([1, 2, 3, 4, 5, 6, 7, 8, 9, 10, 12, 13, 16, 17, 20, 24, 31, 40])
+    elif size == "mid":
+        n = rng.randint(1, 79)
+    else:
+        n = rng.randint(80, 300)
     b = rng.choice([1, n, max(1, n // 2), rng.randint(1, n), rng.randint(1, n)])
+    if size == "large" and b < n // 40:
+        b = rng.randint(max(1, n // 40), n)
     drop_last = rng.random() < 0.6
     d = None
     if drop_last and rng.random() < 0.3:
@@ -54,7 +88,7 @@ def gen_case(rng, big=False):
     case["perm_seed"] = rng.choice([None, rng.randint(0, 999)])
     spe, upe = geometry(case)
     kind = rng.choice(["epochs", "updates", "samples"])
-    total_epochs = rng.choice([1, 1, 2, 2, 3, 4])
+    total_epochs = rng.choice([1, 1, 2, 2, 3, 4] if size != "large" else [1, 1, 2, 2, 3])
     if rng.random() < 0.07:
         val = 0
     elif kind == "epochs":
@@ -65,8 +99,9 @@ def gen_case(rng, big=False):
         val = max(1, spe * total_epochs + rng.choice([0, 0, -1, 1, b, -b, rng.randint(-spe, spe)]))
     case["budget"] = [kind, val]
     sides = []
-    for _ in range(rng.choice([0, 1, 1, 2, 2, 3, 4])):
-        ln = rng.choice([0, 1, 2, 3, 5, 7])
+    n_sides = rng.choice([0, 1, 1, 2, 2, 3, 4]) if size != "large" else rng.choice([0, 1, 2, 3, 4, 5, 6, 6])
+    for _ in range(n_sides):
+        ln = rng.choice([0, 1, 2, 3, 5, 7] if size != "large" else [0, 1, 3, 5, 7, 12])
         dsl = ln + rng.choice([0, 0, 2])
         sc = {"ene": None, "enu": None, "ens": None, "bs": rng.choice([None, None, 1, 2, 3, 4]),
               "dslen": dsl}
@@ -80,6 +115,8 @@ def gen_case(rng, big=False):
             else:
                 sc[k] = max(1, rng.choice([1, b, 2 * b, b + 1, spe, spe - 1, spe + 1, 3, 12, rng.randint(1, 2 * spe + 1)]))
         sc["idx"] = list(range(ln)) if rng.random() < 0.7 else [rng.randrange(max(dsl, 1)) for _ in range(ln)] if dsl else []
+        # a stateful side sampler: another order on every iteration (like RandomSampler / set_epoch-driven shuffling)
+        sc["shuffle"] = rng.randint(0, 999) if (ln >= 2 and rng.random() < 0.4) else None
         sides.append(sc)
     case["sides"] = sides
     # start checkpoint
@@ -109,28 +146,142 @@ def gen_case(rng, big=False):
     return case
 
 
+def gen_bounded(rng, **kw):
+    """gen_case, re-drawn until the expected stream is of moderate length"""
+    for _ in range(50):
+        c = gen_case(rng, **kw)
+        if expected_events(c) <= GEN_EVENTS:
+            return c
+    return gen_case(rng)
+
+
+def expected_events(case):
+    spe, upe = geometry(case)
+    kind, val = case["budget"]
+    if val == 0:
+        return sum(len(s["idx"]) for s in case["sides"])
+    ups = {"epochs": val * upe, "updates": val, "samples": -(-val // case["B"]) + val // spe + 1}[kind]
+    per = 0
+    for s in case["sides"]:
+        f = 0.0
+        if s["ene"]:
+            f += 1.0 / (upe * s["ene"])
+        if s["enu"]:
+            f += 1.0 / s["enu"]
+        if s["ens"]:
+            f += min(1.0, case["B"] / s["ens"])
+        per += min(1.0, f) * len(s["idx"])
+    return ups * (case["B"] + per)
+
+
+# ---- invalid / unusual constructor arguments -------------------------------------------------
+def gen_mut(rng, case):
+    """one assignment [path..., value] applied to the raw constructor arguments: the class of argument
+    combinations the constructor's assertions are about"""
+    n, b = case["N"], case["B"]
+    kind = case["budget"][0]
+    other = [k for k in ("epochs", "updates", "samples") if k != kind]
+    opts = [
+        ["B", 0], ["B", -1], ["B", n + 1],
+        ["D", b + 1 if b > 1 else 2 * n + 1], ["D", (n // b + 1) * b], ["D", 0],
+        ["drop_last", False] if case["D"] is not None else ["D", b],   # D without drop_last / a plain valid D
+        [kind, -1], [kind, None], [rng.choice(other), rng.choice([0, 1, 3])],
+    ]
+    if case["sides"]:
+        i = rng.randrange(len(case["sides"]))
+        opts += [["sides", i, rng.choice(["ene", "enu", "ens", "bs"]), rng.choice([0, -2])],
+                 ["sides", i, "all_none", True]]
+    if case["start"] is not None:
+        others = [k for k in ("epoch", "update", "sample") if k != case["start"][0]]
+        opts += [["start_" + rng.choice(others), rng.choice([0, 1, b])]] * 2
+        if case["start"][0] == "sample":
+            opts += [["start_sample", case["start"][1] + 1]] if b > 1 else []
+    return rng.choice(opts)
+
+
+def raw_args(case, start="case"):
+    """the constructor arguments of this case (after its optional mutation)"""
+    st = case["start"] if start == "case" else start
+    raw = {"N": case["N"], "dsN": case["dsN"], "B": case["B"], "drop_last": case["drop_last"], "D": case["D"],
+           "epochs": None, "updates": None, "samples": None,
+           "start_epoch": None, "start_update": None, "start_sample": None,
+           "sides": [{"ene": s["ene"], "enu": s["enu"], "ens": s["ens"], "bs": s["bs"]} for s in case["sides"]]}
+    raw[case["budget"][0]] = case["budget"][1]
+    if st is not None:
+        raw["start_" + st[0]] = st[1]
+    mut = case.get("mut")
+    if mut:
+        if mut[0] == "sides":
+            if mut[2] == "all_none":
+                raw["sides"][mut[1]].update({"ene": None, "enu": None, "ens": None})
+            else:
+                raw["sides"][mut[1]][mut[2]] = mut[3]
+        else:
+            raw[mut[0]] = mut[1]
+    return raw
+
+
+def ctor_expect(raw):
+    """independent statement of which argument combinations the constructor accepts:
+    'ok' | 'AssertionError' | 'NotImplementedError'"""
+    n, b, d = raw["N"], raw["B"], raw["D"]
+    if not (isinstance(b, int) and 0 < b <= n):
+        return "AssertionError"
+    if d is not None and not (raw["drop_last"] and d % b == 0 and b <= d <= n):
+        return "AssertionError"
+    given = [raw[k] for k in ("epochs", "updates", "samples") if raw[k] is not None]
+    if len(given) != 1 or given[0] < 0:
+        return "AssertionError"
+    for s in raw["sides"]:
+        if all(s[k] is None for k in ("ene", "enu", "ens")):
+            return "AssertionError"
+        if any(s[k] is not None and s[k] <= 0 for k in ("ene", "enu", "ens", "bs")):
+            return "AssertionError"
+    starts = [k for k in ("start_epoch", "start_update", "start_sample") if raw[k] is not None]
+    if len(starts) > 1:
+        return "AssertionError"
+    if not starts or starts[0] == "start_epoch":
+        return "ok"
+    unit = d or b
+    spe = n // unit * unit if raw["drop_last"] else n
+    if starts[0] == "start_sample" and raw["start_sample"] % b != 0:
+        return "AssertionError"
+    pos = raw["start_update"] * b if starts[0] == "start_update" else raw["start_sample"]
+    if not raw["drop_last"] or pos % spe != 0:
+        return "NotImplementedError"
+    return "ok"
+
+
 def gen_cases(rng, tier):
     n = 700 if tier == "quick" else 6000
-    out = [gen_case(rng, big=False) for _ in range(n)]
+    out = [gen_bounded(rng) for _ in range(n)]
     if tier == "thorough":
-        out += [gen_case(rng, big=True) for _ in range(2000)]
+        out += [gen_bounded(rng, size="mid") for _ in range(2500)]
+        out += [gen_bounded(rng, size="large") for _ in range(800)]
     return out
 
 
 def search_cases(rng, tier):
     for _ in range(20000):
-        yield gen_case(rng, big=rng.random() < 0.3)
+        yield gen_bounded(rng, size="mid" if rng.random() < 0.3 else "small")
 
 
 def shrink(case):
     """candidate smaller cases"""
     c = case
+    for k in ("mut", "post_budget", "loader"):
+        if c.get(k) is not None:
+            yield {kk: v for kk, v in c.items() if kk != k}
     for i in range(len(c["sides"])):
+        if c.get("mut") and c["mut"][0] == "sides":
+            break
         yield {**c, "sides": c["sides"][:i] + c["sides"][i + 1:]}
     for i, sc in enumerate(c["sides"]):
         for k in ("ene", "enu", "ens", "bs"):
             if sc[k] is not None and sum(sc[x] is not None for x in ("ene", "enu", "ens")) > (1 if k != "bs" else 0):
                 yield {**c, "sides": c["sides"][:i] + [{**sc, k: None}] + c["sides"][i + 1:]}
+        if sc.get("shuffle") is not None:
+            yield {**c, "sides": c["sides"][:i] + [{**sc, "shuffle": None}] + c["sides"][i + 1:]}
         if len(sc["idx"]) > 1:
             m = len(sc["idx"]) - 1
             yield {**c, "sides": c["sides"][:i] + [{**sc, "idx": list(range(m)), "dslen": m}] + c["sides"][i + 1:]}
@@ -138,11 +289,11 @@ def shrink(case):
         yield {**c, "perm_seed": None}
     if c["dsN"] != c["N"]:
         yield {**c, "dsN": c["N"]}
-    if c["D"] is not None:
+    if c["D"] is not None and not c.get("mut"):
         yield {**c, "D": None}
-    if c["start"] is None and c["N"] > c["B"] and c["N"] > 1:
+    if c["start"] is None and c["N"] > c["B"] and c["N"] > 1 and not c.get("mut"):
         yield {**c, "N": c["N"] - 1, "dsN": c["N"] - 1}
-    if c["budget"][1] > 1 and c["start"] is None:
+    if c["budget"][1] > 1 and c["start"] is None and c.get("post_budget") is None:
         yield {**c, "budget": [c["budget"][0], c["budget"][1] - 1]}
 
 
@@ -177,13 +328,13 @@ class _TagCollator:
 
 
 class _RecMain:
-    def __init__(self, case, log):
-        self.case, self.log = case, log
-        self.data_source = _DS(0, case["dsN"])
+    def __init__(self, case, raw, log):
+        self.case, self.log, self.n = case, log, raw["N"]
+        self.data_source = _DS(0, raw["dsN"])
         self.epoch = None
 
     def __len__(self):
-        return self.case["N"]
+        return self.n
 
     def set_epoch(self, e):
         self.log.append(["E", e])
@@ -194,47 +345,77 @@ class _RecMain:
 
 
 class _Side:
-    def __init__(self, tag, sc):
-        self.data_source = _DS(tag, sc["dslen"])
-        self.idx = sc["idx"]
+    """recording side sampler; its order may change with every iteration (pass counter = the object's state,
+    starting at p0); it offers set_epoch and logs any call of it"""
+
+    def __init__(self, tag, sc, p0, log, plog):
+        # _get_data_source accepts either attribute name
+        if tag % 2:
+            self.data_source = _DS(tag, sc["dslen"])
+        else:
+            self.dataset = _DS(tag, sc["dslen"])
+        self.tag, self.sc, self.p, self.log, self.plog = tag, sc, p0, log, plog
 
     def __len__(self):
-        return len(self.idx)
+        return len(self.sc["idx"])
+
+    def set_epoch(self, e):
+        self.log.append(["S", self.tag - 1, e])
 
     def __iter__(self):
-        yield from self.idx
+        p = self.p
+        self.p += 1
+        self.plog.append([self.tag - 1, len(self.log)])
+        yield from side_iter(self.sc, p)
 
 
-def build(case, log, start="case"):
+def build(case, log, start="case", pass0=None, plog=None):
     from kappadata.samplers.interleaved_sampler import InterleavedSampler, InterleavedSamplerConfig
-    main = _RecMain(case, log)
-    cfgs = [InterleavedSamplerConfig(sampler=_Side(i + 1, sc), every_n_epochs=sc["ene"], every_n_updates=sc["enu"],
-                                     every_n_samples=sc["ens"], batch_size=sc["bs"])
-            for i, sc in enumerate(case["sides"])]
+    raw = raw_args(case, start)
+    main = _RecMain(case, raw, log)
+    plog = plog if plog is not None else []
+    pass0 = pass0 or [0] * len(case["sides"])
+    cfgs = [InterleavedSamplerConfig(sampler=_Side(i + 1, sc, pass0[i], log, plog), every_n_epochs=rs["ene"],
+                                     every_n_updates=rs["enu"], every_n_samples=rs["ens"], batch_size=rs["bs"])
+            for i, (sc, rs) in enumerate(zip(case["sides"], raw["sides"]))]
+    kw = {k: raw[k] for k in ("epochs", "updates", "samples", "start_epoch", "start_update", "start_sample")
+          if raw[k] is not None}
     if case.get("loader") is not None:
         for i, cf in enumerate(cfgs):
             cf.collator = _TagCollator(i + 1)
-    kw = {case["budget"][0]: case["budget"][1]}
-    if case.get("loader") is not None:
         kw["main_collator"] = _TagCollator(0)
-    st = case["start"] if start == "case" else start
-    if st is not None:
-        kw["start_" + st[0]] = st[1]
-    return InterleavedSampler(main_sampler=main, batch_size=case["B"], configs=cfgs, drop_last=case["drop_last"],
-                              drop_last_batch_size=case["D"], **kw)
+    s = InterleavedSampler(main_sampler=main, batch_size=raw["B"], configs=cfgs or None, drop_last=raw["drop_last"],
+                           drop_last_batch_size=raw["D"], **kw)
+    if case.get("post_budget") is not None:
+        # several budgets at once: the constructor refuses them, the loop's end test handles them
+        for k, v in case["post_budget"].items():
+            setattr(s, k, v)
+    return s
 
 
-def run_stream(case, start="case"):
-    """-> dict(result=ok|NotImplementedError|AssertionError|RUNAWAY, log=[...], resolve=[...])"""
-    log = []
+def _loader_batches(s, workers):
     try:
-        s = build(case, log, start)
+        lb = []
+        for bt in s.get_data_loader(num_workers=workers):
+            lb.append([int(bt[0]), [[int(a), int(b)] for a, b in bt[1]]])
+            if len(lb) > MAX_EVENTS:
+                break
+        return lb
+    except Exception as e:  # noqa
+        return type(e).__name__ + ": " + str(e)[:300]
+
+
+def run_stream(case, start="case", pass0=None):
+    """-> dict(result=ok|NotImplementedError|AssertionError|RUNAWAY, log=[...], resolve=[...], ...)"""
+    log, plog = [], []
+    try:
+        s = build(case, log, start, pass0, plog)
     except NotImplementedError:
         return {"result": "NotImplementedError", "log": []}
     except AssertionError:
         return {"result": "AssertionError", "log": []}
     res = "ok"
-    resolve_bad = None
+    out = {"index_offsets": [int(x) for x in s.index_offsets]}
     try:
         for full, idx in s:
             log.append(["Y", bool(full), int(idx)])
@@ -243,7 +424,7 @@ def run_stream(case, start="case"):
                 break
     except AssertionError:
         res = "AssertionError"
-    out = {"result": res, "log": log}
+    out.update({"result": res, "log": log, "plog": plog})
     if res == "ok":
         # resolution of every distinct yielded index through the real concat dataset
         seen = {}
@@ -256,8 +437,7 @@ def run_stream(case, start="case"):
                     seen[ev[2]] = [type(e).__name__]
         out["resolve"] = sorted([k] + v for k, v in seen.items())
         # the batch sampler on a second, independent iteration
-        log2 = []
-        s2 = build(case, log2, start)
+        s2 = build(case, [], start, pass0)
         try:
             bs = []
             for b in s2.batch_sampler:
@@ -269,23 +449,42 @@ def run_stream(case, start="case"):
             out["batches"] = "AssertionError"
         if case.get("loader") is not None:
             # the real DataLoader (num_workers = case["loader"]) with one tagging collator per dataset
-            s3 = build(case, [], start)
-            try:
-                lb = []
-                for bt in s3.get_data_loader(num_workers=case["loader"]):
-                    lb.append([int(bt[0]), [[int(a), int(b)] for a, b in bt[1]]])
-                    if len(lb) > MAX_EVENTS:
-                        break
-                out["loader_batches"] = lb
-            except Exception as e:  # noqa
-                out["loader_batches"] = type(e).__name__ + ": " + str(e)[:300]
+            out["loader_batches"] = _loader_batches(build(case, [], start, pass0), case["loader"])
+    return out
+
+
+def passes_before(fresh, e0, n_sides):
+    """how often every side sampler was iterated in the run `fresh` before set_epoch(e0)"""
+    try:
+        k = fresh["log"].index(["E", e0])
+    except ValueError:
+        return None
+    out = [0] * n_sides
+    for ci, pos in fresh.get("plog", []):
+        if pos <= k:
+            out[ci] += 1
     return out
 
 
 def run_impl(case):
-    obs = run_stream(case)
-    if case["start"] is not None and obs["result"] == "ok":
-        obs["fresh"] = run_stream(case, start=None)["log"]
+    if case["start"] is None:
+        obs = run_stream(case)
+        obs["pass0"] = [0] * len(case["sides"])
+        return obs
+    # a resumed run: the side sampler objects carry on from the state they have at the checkpoint in the
+    # uninterrupted run (for samplers yielding the same order every time this is immaterial)
+    fresh = run_stream(case, start=None)
+    e0 = start_epoch_of(case)
+    pass0 = None
+    if isinstance(e0, int) and fresh["result"] == "ok":
+        pass0 = passes_before(fresh, e0, len(case["sides"]))
+    pass0 = pass0 or [0] * len(case["sides"])
+    obs = run_stream(case, pass0=pass0)
+    obs["pass0"] = pass0
+    if obs["result"] == "ok":
+        obs["fresh"] = fresh["log"]
+        if case.get("loader") is not None:
+            obs["fresh_loader"] = fresh.get("loader_batches")
     return obs
 
 
@@ -304,12 +503,12 @@ def offsets(case):
     return offs
 
 
-def side_pass(case, ci):
+def side_pass(case, ci, p=0):
     sc = case["sides"][ci]
     off = offsets(case)[ci]
     bs = sc["bs"] or case["B"]
     out = []
-    for b in chunks(sc["idx"], bs):
+    for b in chunks(side_iter(sc, p), bs):
         out += [["Y", False, off + i] for i in b[:-1]] + [["Y", True, off + b[-1]]]
     return out
 
@@ -321,31 +520,28 @@ def crossed(n, a, b):
 
 def start_epoch_of(case):
     """-> (e0 | 'NotImplementedError' | 'AssertionError')"""
+    exp = ctor_expect(raw_args(case))
+    if exp != "ok":
+        return exp
     spe, upe = geometry(case)
     st = case["start"]
     if st is None:
         return 0
     if st[0] == "epoch":
         return st[1]
-    if st[0] == "sample":
-        if st[1] % case["B"] != 0:
-            return "AssertionError"
-        u = st[1] // case["B"]
-    else:
-        u = st[1]
-    if u % upe != 0 or not case["drop_last"]:
-        return "NotImplementedError"
+    u = st[1] // case["B"] if st[0] == "sample" else st[1]
     return u // upe
 
 
-def spec_stream(case, e0, tag=False):
-    """the stream an uninterrupted run shows from the beginning of epoch e0 on;
-    with tag=True every event carries 'M' (main) / config index"""
-    kind, val = case["budget"]
-    if val == 0:
+def spec_stream(case, e0, tag=False, pass0=None):
+    """the stream an uninterrupted run shows from the beginning of epoch e0 on (side samplers iterated pass0
+    times before); with tag=True every event carries 'M' (main) / config index"""
+    bud = budgets(case)
+    pn = list(pass0 or [0] * len(case["sides"]))
+    if any(v == 0 for v in bud.values()):
         out = []
         for ci in range(len(case["sides"])):
-            out += [ev + [ci] if tag else ev for ev in side_pass(case, ci)]
+            out += [ev + [ci] if tag else ev for ev in side_pass(case, ci, pn[ci])]
         return out
     spe, upe = geometry(case)
     out = []
@@ -368,18 +564,48 @@ def spec_stream(case, e0, tag=False):
                        or (sc["enu"] is not None and update % sc["enu"] == 0)
                        or (sc["ens"] is not None and crossed(sc["ens"], prev, sample)))
                 if due:
-                    out += [ev + [ci] if tag else ev for ev in side_pass(case, ci)]
-            if ((kind == "epochs" and epoch == val) or (kind == "updates" and update == val)
-                    or (kind == "samples" and sample >= val)):
+                    out += [ev + [ci] if tag else ev for ev in side_pass(case, ci, pn[ci])]
+                    pn[ci] += 1
+            if ((bud["epochs"] is not None and epoch == bud["epochs"])
+                    or (bud["updates"] is not None and update == bud["updates"])
+                    or (bud["samples"] is not None and sample >= bud["samples"])):
                 return out
             if len(out) > 4 * MAX_EVENTS:
                 return out
         e += 1
 
 
-def in_domain(case):
-    """start checkpoint strictly before the budget (else nothing is claimed)"""
-    return True
+def ds_ranges(case):
+    offs = [0, case["dsN"]]
+    for sc in case["sides"]:
+        offs.append(offs[-1] + sc["dslen"])
+    return offs
+
+
+def ds_of(case, i):
+    offs = ds_ranges(case)
+    for d in range(len(offs) - 1):
+        if offs[d] <= i < offs[d + 1]:
+            return d, i - offs[d]
+    return None, None
+
+
+def expected_loader_batches(case, stream):
+    """[collator tag, [[dataset, sample], ...]] per batch of `stream`"""
+    expb, cur = [], []
+    for ev in stream:
+        if ev[0] != "Y":
+            continue
+        cur.append(ev[2])
+        if ev[1]:
+            d = ds_of(case, cur[0])[0]
+            expb.append([d, [[d, ds_of(case, i)[1]] for i in cur]])
+            cur = []
+    return expb
+
+
+def side_set_epoch_calls(obs):
+    return [ev for ev in obs.get("log", []) if ev[0] == "S"]
 
 
 # ---------------------------------------------------------------------------
@@ -392,23 +618,39 @@ Open Scope Z_scope.
 """
 
 
-def coq_cfg(case):
-    sides = [Rec(ene=Opt(sc["ene"]), enu=Opt(sc["enu"]), ens=Opt(sc["ens"]), sbs=Opt(sc["bs"]),
-                 sidx=list(sc["idx"]), slen=len(sc["idx"]), dslen=sc["dslen"]) for sc in case["sides"]]
-    kind, val = case["budget"]
-    bud = C({"epochs": "Epochs", "updates": "Updates", "samples": "Samples"}[kind], val)
-    return Rec(cN=case["N"], dsN=case["dsN"], cB=case["B"], drop_last=case["drop_last"], cD=Opt(case["D"]),
-               bud=bud, sides=sides)
+def coq_args(case, obs):
+    raw = raw_args(case)
+    calls = [0] * len(case["sides"])
+    for ci, _ in obs.get("plog", []):
+        calls[ci] += 1
+    pass0 = obs.get("pass0") or [0] * len(case["sides"])
+    sides = []
+    for i, (sc, rs) in enumerate(zip(case["sides"], raw["sides"])):
+        if sc.get("shuffle") is None:
+            sidx = Raw("(fun _ => " + coq(list(sc["idx"])) + ")")
+        else:
+            sidx = Raw("(passes_fun " + coq([side_iter(sc, p) for p in range(pass0[i] + calls[i] + 2)]) + ")")
+        sides.append(Rec(ene=Opt(rs["ene"]), enu=Opt(rs["enu"]), ens=Opt(rs["ens"]), sbs=Opt(rs["bs"]),
+                         sidx=sidx, slen=len(sc["idx"]), dslen=sc["dslen"]))
+    return Rec(a_N=raw["N"], a_dsN=raw["dsN"], a_B=raw["B"], a_drop_last=bool(raw["drop_last"]), a_D=Opt(raw["D"]),
+               a_epochs=Opt(raw["epochs"]), a_updates=Opt(raw["updates"]), a_samples=Opt(raw["samples"]),
+               a_start_epoch=Opt(raw["start_epoch"]), a_start_update=Opt(raw["start_update"]),
+               a_start_sample=Opt(raw["start_sample"]), a_sides=sides)
 
 
 def coq_obs(log):
-    return [C("OSetEpoch", ev[1]) if ev[0] == "E" else C("OYield", ev[1], ev[2]) for ev in log]
+    out = []
+    for ev in log:
+        if ev[0] == "E":
+            out.append(C("OSetEpoch", ev[1]))
+        elif ev[0] == "S":
+            out.append(C("OSideSetEpoch", Nat(ev[1]), ev[2]))
+        else:
+            out.append(C("OYield", ev[1], ev[2]))
+    return out
 
 
 def coq_case_common(case, obs):
-    st = case["start"]
-    start = C("NoStart") if st is None else C({"epoch": "StartEpoch", "update": "StartUpdate",
-                                               "sample": "StartSample"}[st[0]], st[1])
     result = {"ok": 0, "NotImplementedError": 1, "AssertionError": 2, "RUNAWAY": 3}[obs["result"]]
     epochs = [ev[1] for ev in obs["log"] if ev[0] == "E"]
     emin = min(epochs) if epochs else 0
@@ -417,4 +659,10 @@ def coq_case_common(case, obs):
     batches = obs.get("batches")
     bat = Opt(None if not isinstance(batches, list) else batches)
     resolve = [(r[0], Nat(r[1]), r[2][1]) for r in obs.get("resolve", []) if len(r) == 3]
-    return (coq_cfg(case), start, Nat(result), emin, iters, coq_obs(obs["log"]), bat, resolve)
+    pb = case.get("post_budget")
+    ovr = Opt(None if pb is None else (Opt(pb["epochs"]), Opt(pb["updates"]), Opt(pb["samples"])))
+    offs = Opt(obs.get("index_offsets"))
+    lb = obs.get("loader_batches")
+    lbt = Opt(None if not isinstance(lb, list) else [(Nat(t), [x[1] for x in items]) for t, items in lb])
+    pass0 = [Nat(p) for p in (obs.get("pass0") or [0] * len(case["sides"]))]
+    return (coq_args(case, obs), ovr, pass0, Nat(result), emin, iters, coq_obs(obs["log"]), bat, resolve, offs, lbt)
